@@ -186,6 +186,7 @@ type batchExec struct {
 	cancelAt  time.Duration
 	t0        time.Time
 	toks      []*Tok
+	runNo     int
 	itemErrs  []error
 	prepItems []flyt.Result // what the prep callback produced, when it is a []Result form
 	prepAny   any
@@ -248,8 +249,8 @@ func (x *batchExec) decode(r flyt.Result) int {
 	switch v := r.Value().(type) {
 	case *Tok:
 		i, err := strconv.Atoi(v.Tag)
-		if err != nil {
-			return -1
+		if err != nil || i < 0 || i >= len(x.toks) || x.toks[i] != v {
+			return -1 // not one of THIS run's items (e.g. a token of an earlier run of the same node)
 		}
 		return i
 	case int:
@@ -659,9 +660,22 @@ func (x *batchExec) reconfigure(next *BatchSc) {
 	b = b.WithBatchConcurrency(next.C)
 	b = b.WithBatchErrorHandling(next.Mode != 2)
 	x.builder = b
+	x.rerun(next)
+}
+
+// rerun prepares the SAME, untouched node object for another run in which prep yields next's
+// items (a batch node inside a loop is run again and again; how many items prep finds differs).
+func (x *batchExec) rerun(next *BatchSc) {
 	n := next.n()
 	x.mu.Lock()
 	x.sc = next
+	x.runNo++
+	// fresh item tokens and pre-made errors: anything left over from the earlier run is foreign now
+	x.toks, x.itemErrs = nil, nil
+	for i := 0; i < n; i++ {
+		x.toks = append(x.toks, &Tok{Tag: strconv.Itoa(i)}) // same tags, new objects
+		x.itemErrs = append(x.itemErrs, fmt.Errorf("preerr:%d", i))
+	}
 	x.events, x.parked, x.epoch, x.inflight, x.maxIn, x.started = nil, nil, 0, 0, 0, 0
 	x.attempts = make([]int, n+1)
 	x.postCalls, x.postItems, x.postRes, x.postStore, x.postInflight, x.postStarted = 0, nil, nil, nil, nil, nil
